@@ -2,8 +2,8 @@
 from .. import lib, runner
 
 PROP = "C06"
-THEOREMS = ["Dec.pattern_iff_range", "Dec.selected_iff_window", "Dec.unassigned_iff", "Dec.forward_exact", "Dec.nobody_else", "Dec.r_data_is_selected", "Dec.r_data_zero_when_all_idle", "CsrT.mux_meets_spec", "CsrT.decoder_meets_spec", "CsrT.decoder_over_muxes", "CsrT.tree_meets_spec", "CsrT.spec_rstb_agree", "CsrT.spec_wstb_agree", "CsrT.spec_rdata_agree", "CsrT.spec_rdata_both_zero", "CsrT.spec_wdata_agree", "CsrT.tree_like_flat_mux", "DecBook.addFixed_refused_unchanged", "DecBook.subs_are_accepted", "DecBook.addOrig_refused_clobbers"]
-IMPORTS = ["SocVerif.Props.C06", "SocVerif.Props.C06T", "SocVerif.Props.C06E", "SocVerif.Props.C06D"]
+THEOREMS = ["Dec.pattern_iff_range", "Dec.selected_iff_window", "Dec.unassigned_iff", "Dec.forward_exact", "Dec.nobody_else", "Dec.r_data_is_selected", "Dec.r_data_zero_when_all_idle", "CsrT.mux_meets_spec", "CsrT.decoder_meets_spec", "CsrT.decoder_over_muxes", "CsrT.tree_meets_spec", "CsrT.spec_rstb_agree", "CsrT.spec_wstb_agree", "CsrT.spec_rdata_agree", "CsrT.spec_rdata_both_zero", "CsrT.spec_wdata_agree", "CsrT.tree_like_flat_mux", "CsrT.tree_layout_wf", "CsrT.tree_like_flat_mux_closed", "DecBook.addFixed_refused_unchanged", "DecBook.subs_are_accepted", "DecBook.addOrig_refused_clobbers"]
+IMPORTS = ["SocVerif.Props.C06", "SocVerif.Props.C06T", "SocVerif.Props.C06E", "SocVerif.Props.C06W", "SocVerif.Props.C06D"]
 
 
 def run(rep, tier):
